@@ -80,3 +80,12 @@ def shard(mon, tier, rng, shard_no, nshards):
             ph = runchecks.phase(tr.steps[0], "pareto_updating", "epsiloncovering")
             if ph:
                 mon.sample({"variant": variant, "cone": case["cone"], "S_before": sorted(ph["pre"][0]), "P_after": sorted(ph["post"][1] or [])})
+
+
+def replay(mon, rec):
+    def chk(mon, tr):
+        for st in tr.steps:
+            if st["crash"] is None:
+                runchecks.check_admit(mon, tr, st)
+                runchecks.check_useful(mon, tr, st)
+    runs.replay_runs(mon, rec, chk)
